@@ -1100,6 +1100,203 @@ example :
       (purgeCutsLoop cs n 1).map (·.id) = [4] ∧
       cutLookup { entries := purgeCutsLoop cs n 1 } n 1 = none := by decide
 
+/-! ### Lazy expiry of cuts (round 9, final stretch) -/
+
+theorem findCut_some {cs : List Cut} {name : Bytes} {q : UInt16} {c : Cut} (h : findCut cs name q = some c) :
+    c ∈ cs ∧ c.name = name ∧ c.qclass = q := by
+  unfold findCut at h
+  have hp := List.find?_some h
+  simp only [Bool.and_eq_true, beq_iff_eq] at hp
+  exact ⟨List.mem_of_find?_eq_some h, hp.1, hp.2⟩
+
+theorem findCut_filter_other (cs : List Cut) (cand cand' : Bytes) (q q' : UInt16) (hk : ¬(cand' = cand ∧ q' = q)) :
+    findCut (cs.filter fun x => !(x.name == cand && x.qclass == q)) cand' q' = findCut cs cand' q' := by
+  unfold findCut
+  induction cs with
+  | nil => rfl
+  | cons a t ih =>
+    by_cases ha : a.name = cand ∧ a.qclass = q
+    · have hf : (!(a.name == cand && a.qclass == q)) = false := by simp [ha.1, ha.2]
+      have hn : (a.name == cand' && a.qclass == q') = false := by
+        rw [ha.1, ha.2]
+        by_cases h1 : cand = cand' <;> by_cases h2 : q = q' <;> simp [h1, h2]
+        exact hk ⟨h1.symm, h2.symm⟩
+      rw [List.filter_cons, hf, List.find?_cons, hn]
+      simpa using ih
+    · have hf : (!(a.name == cand && a.qclass == q)) = true := by
+        by_cases h1 : a.name = cand <;> by_cases h2 : a.qclass = q <;> simp [h1, h2]
+        exact ha ⟨h1, h2⟩
+      rw [List.filter_cons, hf]
+      simp only [if_true, List.find?_cons]
+      cases hm : (a.name == cand' && a.qclass == q')
+      · simpa using ih
+      · rfl
+
+theorem findCut_filter_same (cs : List Cut) (cand : Bytes) (q : UInt16) :
+    findCut (cs.filter fun x => !(x.name == cand && x.qclass == q)) cand q = none := by
+  unfold findCut
+  rw [List.find?_eq_none]
+  intro x hx
+  have := (List.mem_filter.mp hx).2
+  cases h1 : (x.name == cand && x.qclass == q)
+  · simp
+  · simp [h1] at this
+
+/-- removing every entry filed under the key of an EXPIRED cut changes no lookup. -/
+theorem firstCut_filter_expired (cs : List Cut) (cand : Bytes) (q : UInt16) (c : Cut)
+    (hc : findCut cs cand q = some c) (hx : c.active = false) (q' : UInt16) (cands' : List Bytes) :
+    firstCut (cs.filter fun x => !(x.name == cand && x.qclass == q)) q' cands' = firstCut cs q' cands' := by
+  induction cands' with
+  | nil => rfl
+  | cons cand' t ih =>
+    unfold firstCut
+    by_cases hk : cand' = cand ∧ q' = q
+    · obtain ⟨hk1, hk2⟩ := hk
+      subst hk1
+      subst hk2
+      rw [findCut_filter_same, hc]
+      simp only [hx, Bool.false_eq_true, if_false]
+      exact ih
+    · rw [findCut_filter_other cs cand cand' q q' hk, ih]
+
+/-- **the walk of `nxDomainCutCache.lookup` changes no lookup**: whatever it removed on its
+way, every later decoded cut lookup — any name, any class — returns what it would have
+returned on the untouched map. -/
+theorem cutWalkPrune_keeps_lookup (q : UInt16) (cands : List Bytes) (cs : List Cut) (q' : UInt16) (cands' : List Bytes) :
+    firstCut (cutWalkPrune cs q cands) q' cands' = firstCut cs q' cands' := by
+  induction cands generalizing cs with
+  | nil => rfl
+  | cons cand t ih =>
+    unfold cutWalkPrune
+    cases hc : findCut cs cand q with
+    | none => exact ih cs
+    | some c =>
+      simp only
+      by_cases ha : c.active = true
+      · simp [ha]
+      · have hx : c.active = false := by simpa using ha
+        simp only [hx, Bool.false_eq_true, if_false]
+        rw [ih]
+        exact firstCut_filter_expired cs cand q c hc hx q' cands'
+
+/-- **the walk removes only expired state**: nothing is added, and an entry that disappears
+has the purged class, a name on the walk, and shares its map key with an EXPIRED entry
+(itself, in a map keyed by (name, class)). -/
+theorem cutWalkPrune_removes_only_expired (q : UInt16) (cands : List Bytes) (cs : List Cut) :
+    (∀ x, x ∈ cutWalkPrune cs q cands → x ∈ cs) ∧
+    (∀ x, x ∈ cs → x ∉ cutWalkPrune cs q cands →
+      x.qclass = q ∧ x.name ∈ cands ∧ ∃ c ∈ cs, c.active = false ∧ c.name = x.name ∧ c.qclass = x.qclass) := by
+  induction cands generalizing cs with
+  | nil => exact ⟨fun _ h => h, fun x hx hn => absurd hx hn⟩
+  | cons cand t ih =>
+    unfold cutWalkPrune
+    cases hc : findCut cs cand q with
+    | none =>
+      refine ⟨(ih cs).1, ?_⟩
+      intro x hx hn
+      obtain ⟨a, b, c⟩ := (ih cs).2 x hx hn
+      exact ⟨a, List.mem_cons_of_mem _ b, c⟩
+    | some c =>
+      simp only
+      by_cases ha : c.active = true
+      · simp only [ha, if_true]
+        exact ⟨fun _ h => h, fun x hx hn => absurd hx hn⟩
+      · have hxa : c.active = false := by simpa using ha
+        simp only [hxa, Bool.false_eq_true, if_false]
+        obtain ⟨hcm, hcn, hcq⟩ := findCut_some hc
+        refine ⟨fun x h => (List.mem_filter.mp ((ih _).1 x h)).1, ?_⟩
+        intro x hx hn
+        by_cases hk : x.name = cand ∧ x.qclass = q
+        · exact ⟨hk.2, by rw [hk.1]; exact List.mem_cons_self, c, hcm, hxa, by rw [hcn, hk.1], by rw [hcq, hk.2]⟩
+        · have hxf : x ∈ cs.filter fun x => !(x.name == cand && x.qclass == q) := by
+            rw [List.mem_filter]
+            refine ⟨hx, ?_⟩
+            by_cases h1 : x.name = cand <;> by_cases h2 : x.qclass = q <;> simp [h1, h2]
+            exact hk ⟨h1, h2⟩
+          obtain ⟨a, b, c', hc'm, rest⟩ := (ih _).2 x hxf hn
+          exact ⟨a, List.mem_cons_of_mem _ b, c', (List.mem_filter.mp hc'm).1, rest⟩
+
+/-- dropping hash slots that point at EXPIRED cuts changes no wire lookup. -/
+theorem firstCutWire_drop_expired (H : Bytes → UInt64) (bh bh' : UInt64 → Option Cut)
+    (hrel : ∀ h, bh' h = bh h ∨ (bh' h = none ∧ ∃ c, bh h = some c ∧ c.active = false))
+    (q : UInt16) (cands : List Bytes) :
+    firstCutWire H bh' q cands = firstCutWire H bh q cands := by
+  induction cands with
+  | nil => rfl
+  | cons cand t ih =>
+    unfold firstCutWire
+    cases hk : keyWirePreimage cand 0 q false with
+    | none => exact ih
+    | some pre =>
+      simp only
+      rcases hrel (H pre ^^^ nxDomainCutHashSalt) with h | ⟨h, c, hc, hx⟩
+      · rw [h, ih]
+      · rw [h, hc]
+        simp only [hx, Bool.and_false, Bool.false_eq_true, if_false]
+        exact ih
+
+/-- **Expiry pruning is invisible**: after the decoded cut lookup for ANY question has
+removed the expired cuts it walked past (`cutLookupPrune`; the hash index losing only slots
+that pointed at expired cuts), every cut lookup on both routes and all three hit ladders
+return — for every question, partition and client — exactly what they returned before. -/
+theorem expiry_pruning_is_invisible (H : Bytes → UInt64) (W : World) (pname : Bytes) (pclass : UInt16)
+    (bh' : UInt64 → Option Cut)
+    (hrel : ∀ h, bh' h = W.cs.byHash h ∨ (bh' h = none ∧ ∃ c, W.cs.byHash h = some c ∧ c.active = false)) :
+    let W' : World := { st := W.st, fs := W.fs,
+                        cs := { entries := cutLookupPrune W.cs.entries pname pclass, byHash := bh' } }
+    (∀ n q, cutLookup W'.cs n q = cutLookup W.cs n q) ∧
+    (∀ w q, cutLookupWire H W'.cs w q = cutLookupWire H W.cs w q) ∧
+    (∀ n t q cd cl e, serveMsg H W' n t q cd cl e = serveMsg H W n t q cd cl e) ∧
+    (∀ n t q cd e, storeGet H W' n t q cd e = storeGet H W n t q cd e) ∧
+    (∀ w t q cd due, serveWire H W' w t q cd due = serveWire H W w t q cd due) := by
+  intro W'
+  have h1 : ∀ n q, cutLookup W'.cs n q = cutLookup W.cs n q := by
+    intro n q
+    show cutLookup { entries := cutLookupPrune W.cs.entries pname pclass, byHash := bh' } n q = _
+    unfold cutLookup cutLookupPrune
+    by_cases hq : (q == 0) = true
+    · simp [hq]
+    · simp only [hq]
+      by_cases hp : (pclass == 0) = true
+      · simp [hp]
+      · simp only [hp]
+        exact cutWalkPrune_keeps_lookup pclass _ _ q _
+  have h2 : ∀ w q, cutLookupWire H W'.cs w q = cutLookupWire H W.cs w q := by
+    intro w q
+    show cutLookupWire H { entries := cutLookupPrune W.cs.entries pname pclass, byHash := bh' } w q = _
+    unfold cutLookupWire
+    by_cases hq : (q == 0) = true
+    · simp [hq]
+    · simp only [hq]
+      exact firstCutWire_drop_expired H _ _ hrel q _
+  have h3 : ∀ n t q cd cl e, serveMsg H W' n t q cd cl e = serveMsg H W n t q cd cl e := by
+    intro n t q cd cl e
+    unfold serveMsg
+    rw [h1]
+  have h5 : ∀ w t q cd due, serveWireCore H W' w t q cd due = serveWireCore H W w t q cd due := by
+    intro w t q cd due
+    unfold serveWireCore
+    rw [h2]
+  refine ⟨h1, h2, h3, ?_, ?_⟩
+  · intro n t q cd e
+    unfold storeGet
+    rw [h1]
+  · intro w t q cd due
+    unfold serveWire
+    rw [h5]
+    simp only [h3]
+
+/-- non-vacuity: an expired cut at the parent above a live cut at the TLD: the decoded
+lookup answers from the TLD's cut and removes the expired one; lookups before and after agree. -/
+example :
+    let n : Bytes := [97, 46, 98, 46, 99, 46]
+    let cs : List Cut := [
+      { id := 1, name := [98, 46, 99, 46], qclass := 1, active := false, wireOk := true },
+      { id := 2, name := [99, 46], qclass := 1, active := true, wireOk := true }]
+    (cutLookup { entries := cs } n 1).map (·.id) = some 2 ∧
+      (cutLookupPrune cs n 1).map (·.id) = [2] ∧
+      (cutLookup { entries := cutLookupPrune cs n 1 } n 1).map (·.id) = some 2 := by decide
+
 /-- **Failure lookups never cross the CD partition, on any route**: a question-kind failure
 state handed out by the Store wrapper (`Store.LookupFailure`), by the wire lookup, or by any of
 the three ladders carries exactly the CD bit of the request that received it.  (Zone-kind
